@@ -400,7 +400,7 @@ impl PropImpl for C18 {
                 let commit = t.flag();
                 let mut payload = line(t);
                 if !commit && t.chance(1, 5) {
-                    payload = t.pick(&["Commit:abc123", "COMMIT:1", "commit :a", "Commit"]).to_string();
+                    payload = t.pick(&["Commit:abc123", "COMMIT:1", "commit :a", "Commit", "1.2, commit:0123abcd", "2.0 commit:ab", "see commit:ab", "x,commit:1"]).to_string();
                 }
                 if !commit && payload.starts_with("commit:") {
                     payload = format!("x{}", payload);
